@@ -287,6 +287,26 @@ impl Drop for MissingFieldLocationGuard {
     }
 }
 
+/// Clears [`MISSING_FIELD_FALLBACK`] for the duration of one top-level document scope and restores
+/// the enclosing call's value afterwards.
+pub(crate) struct FallbackScopeGuard {
+    prev: Option<Location>,
+}
+
+impl FallbackScopeGuard {
+    pub(crate) fn enter() -> Self {
+        Self {
+            prev: MISSING_FIELD_FALLBACK.with(|c| c.replace(None)),
+        }
+    }
+}
+
+impl Drop for FallbackScopeGuard {
+    fn drop(&mut self) {
+        MISSING_FIELD_FALLBACK.with(|c| c.set(self.prev));
+    }
+}
+
 /// The reason why a string value was transformed during parsing and cannot be borrowed.
 ///
 /// When deserializing to `&str`, the value must exist verbatim in the input. However,
